@@ -105,24 +105,23 @@ impl<'p> Interp<'p> {
 						}
 						let right = &b.right;
 						let key = b as *const syn::ExprBinary as usize;
-						if !self.no_merge_sites.contains(&key) {
-							let r = self.speculate(guard, &mut |s: &mut Self| s.eval(right));
-							match r {
-								Ok(rv) => {
-									let rv = self.deref_val(&rv);
-									let rt = match rv {
-										V::Bool(_) | V::SBool(_) => self.bool_term(&rv),
-										_ => return unsup("non-boolean operand of &&/||"),
-									};
-									let res = if is_and { self.tm.and(t, rt) } else { self.tm.or(t, rt) };
-									return Ok(self.mk_bool(res));
-								}
-								Err(Ctl::Impure(_)) => {
-									self.no_merge_sites.insert(key);
-								}
-								Err(Ctl::Infeasible) => return Ok(V::Bool(!is_and)),
-								Err(e) => return Err(e),
+						let r = self.spec_unit(key, &mut |s: &mut Self| match s.speculate(guard, &mut |s2: &mut Self| s2.eval(right)) {
+							Ok(v) => Ok(Some(v)),
+							Err(Ctl::Infeasible) => Ok(None),
+							Err(e) => Err(e),
+						})?;
+						match r {
+							Some(Some(rv)) => {
+								let rv = self.deref_val(&rv);
+								let rt = match rv {
+									V::Bool(_) | V::SBool(_) => self.bool_term(&rv),
+									_ => return unsup("non-boolean operand of &&/||"),
+								};
+								let res = if is_and { self.tm.and(t, rt) } else { self.tm.or(t, rt) };
+								return Ok(self.mk_bool(res));
 							}
+							Some(None) => return Ok(V::Bool(!is_and)),
+							None => {}
 						}
 						if !self.spec_marks.is_empty() {
 							return Err(Ctl::Impure("short-circuit with impure right side in speculation".into()));
@@ -468,6 +467,15 @@ impl<'p> Interp<'p> {
 			let (t1, t2) = (self.bool_term(&e1), self.bool_term(&e2));
 			let t = self.tm.ite(*c, t1, t2);
 			return Ok(self.mk_bool(t));
+		}
+		if let (V::Struct(n1, f1), V::Struct(n2, f2)) = (&a, &b) {
+			if &**n1 == "__bits" && &**n2 == "__bits" {
+				let (x, y) = (f1[0].1.v.borrow().clone(), f2[0].1.v.borrow().clone());
+				if let (V::F(x), V::F(y)) = (x, y) {
+					let t = self.bits_eq(x, y);
+					return Ok(self.mk_bool(t));
+				}
+			}
 		}
 		match (&a, &b) {
 			(V::Struct(n, _), _) | (V::Enum(n, _, _), _) if self.prog.impls.contains_key(&(n.to_string(), "eq".to_string())) => {
